@@ -333,6 +333,24 @@ func (g *genState) genC02() {
 			g.decodeAll("empty-container", []string{"parse", "typesize", "walk", "open", "ltab", "mtab", "parselist", "parsemsg"}, append(append([]byte{}, p...), 0, 0, c))
 		}
 	}
+	// integers stored in a wider varint form than the encoder chooses, under every integer type code, read by
+	// every integer decoder and delimited by every probe (values compared with the model)
+	for _, code := range []byte{10, 11, 12, 20, 21, 22} {
+		for _, v := range []uint64{0, 1, 10, 0xfc, 0xfd, 0x100, 0x7fff, 0xfffe, 0xffff, 0x10000, 0x1fffe, 0x7fffffff, 0xffffffff, 0x100000000, 1<<63 - 1, 1<<64 - 1} {
+			for _, w := range []int{3, 5, 9} {
+				var vi []byte
+				if w == 9 {
+					vi = []byte{byte(v >> 56), byte(v >> 48), byte(v >> 40), byte(v >> 32), byte(v >> 24), byte(v >> 16), byte(v >> 8), byte(v), 0xff}
+				} else if vi = forcedVarint(v, w); vi == nil {
+					continue
+				}
+				for _, pre := range [][]byte{nil, {0xff, 0xfe, 0xfd, 0x00}} {
+					in := append(append(append([]byte{}, pre...), vi...), code)
+					g.decodeAll("widevarint", []string{"i16", "i32", "i64", "u16", "u32", "u64", "parse", "typesize", "walk", "open"}, in)
+				}
+			}
+		}
+	}
 	if g.thor {
 		// all 3-byte inputs ending in a type code, all ops that can accept that code
 		for a := 0; a < 256; a++ {
